@@ -171,6 +171,13 @@ metadata: {name: dr-a, namespace: ns1}
 spec:
   host: a.example.com
   trafficPolicy: {loadBalancer: {consistentHash: {httpHeaderName: x-user}}}
+`, `
+apiVersion: networking.istio.io/v1
+kind: DestinationRule
+metadata: {name: dr-a, namespace: ns1}
+spec:
+  host: b.example.com
+  subsets: [{name: v1, labels: {version: v1}}]
 `)
 	addCfg("dr-a-root", `
 apiVersion: networking.istio.io/v1
